@@ -1,4 +1,5 @@
 SPECIFICATION EmitSpec
 CONSTANTS
   Tier = "full"
+  EnvDefects = {}
 CHECK_DEADLOCK FALSE
